@@ -39,6 +39,7 @@ type pushPlan struct {
 	Status int           // final status to answer with
 	Delay  time.Duration // before answering
 	Drop   bool          // close the connection instead of answering (transport error)
+	Hang   bool          // answer only after the client's timeout has passed (transport error of the timeout kind)
 }
 
 type pushReqLog struct {
@@ -101,6 +102,12 @@ func (ep *pushEndpoint) handle(w http.ResponseWriter, r *http.Request) {
 	ep.mu.Unlock()
 	if plan.Delay > 0 {
 		time.Sleep(plan.Delay)
+	}
+	if plan.Hang {
+		select {
+		case <-r.Context().Done(): // the client gave up
+		case <-time.After(3 * time.Second):
+		}
 	}
 	ep.mu.Lock()
 	ep.inFlight--
@@ -534,6 +541,7 @@ type e2eMsg struct {
 }
 
 type e2eResult struct {
+	Overlapping int `json:"overlapping_attempts"`
 	Scenario    string        `json:"scenario"`
 	Messages    int           `json:"messages"`
 	Requests    int           `json:"requests"`
@@ -607,6 +615,8 @@ func runPushE2E(seed int64, scenario string) (*e2eResult, error) {
 		n = 40
 	case "slow":
 		n = 8
+	case "timeout":
+		n = 6
 	}
 	for i := 0; i < n; i++ {
 		m := &e2eMsg{Payload: pushPayloads[r.Intn(len(pushPayloads))]}
@@ -625,6 +635,14 @@ func runPushE2E(seed int64, scenario string) (*e2eResult, error) {
 				p.Delay = 1100 * time.Millisecond
 			}
 			m.Plan = []pushPlan{p}
+		case "timeout":
+			// the endpoint accepts the request and does not answer within the client's timeout
+			// (400 ms): a transport error like any other -- the message is pushed again
+			if i%2 == 0 {
+				m.Plan = []pushPlan{{Hang: true, Drop: true}, ok()}
+			} else {
+				m.Plan = []pushPlan{ok()}
+			}
 		default:
 			for k := r.Intn(3); k > 0; k-- {
 				m.Plan = append(m.Plan, fail())
@@ -675,7 +693,11 @@ func runPushE2E(seed int64, scenario string) (*e2eResult, error) {
 		return nil, err
 	}
 	sub := d0.subByName(subName)
-	pusher := actions.NewHttpPusher(subName, sub.ID, ep.srv.URL+"/push", nil, e.Client)
+	var hc *http.Client
+	if scenario == "timeout" {
+		hc = &http.Client{Timeout: 400 * time.Millisecond}
+	}
+	pusher := actions.NewHttpPusher(subName, sub.ID, ep.srv.URL+"/push", hc, e.Client)
 	ep.window = func() int { return pusher.CurrentFlowControl().MaxMessages }
 	pctx, pcancel := context.WithCancel(ctx)
 	done := make(chan error, 1)
@@ -780,6 +802,14 @@ func runPushE2E(seed int64, scenario string) (*e2eResult, error) {
 			}
 			success := !l.Plan.Drop && (l.Plan.Status == 200 || l.Plan.Status == 201 || l.Plan.Status == 202 || l.Plan.Status == 204)
 			last := a == len(ls)-1
+			if !last && ls[a+1].At.Before(l.Done) {
+				// the next attempt started while this request was still unanswered: the lease lapsed
+				// during a slow request (the pusher's lease renewal is best effort under load) and
+				// the message was delivered twice -- allowed by at-least-once delivery; what became
+				// of THIS answer cannot be told apart from the other attempt's: not judged
+				res.Overlapping++
+				continue
+			}
 			// what happened after this answer: pushed again? completed?
 			ackedObserved := last && del.Completed != nil
 			res.AckCases = append(res.AckCases, fmt.Sprintf("(%s, %d, %d, %s)", coqBool(l.Plan.Drop), l.Plan.Status, int64(l.Plan.Delay), coqBool(ackedObserved)))
@@ -850,7 +880,7 @@ func cmdPushE2E(args []string) error {
 		return fmt.Errorf("-out required")
 	}
 	os.MkdirAll(*out, 0o755)
-	scen := []string{"mixed", "mixed", "ordered", "all-success", "slow", "dead-lettered"}
+	scen := []string{"mixed", "mixed", "ordered", "all-success", "slow", "dead-lettered", "timeout"}
 	var jobs []string
 	for i := 0; i < *reps; i++ {
 		jobs = append(jobs, scen...)
